@@ -1,7 +1,7 @@
-from . import props_str, props_fmt, props_fv, props_hash, props_iter, props_own, props_opt, props_log
+from . import props_str, props_fmt, props_fv, props_hash, props_iter, props_own, props_opt, props_log, props_mt, props_usage
 
 PROPS = {}
-for mod in (props_str, props_fmt, props_fv, props_hash, props_iter, props_own, props_opt, props_log):
+for mod in (props_str, props_fmt, props_fv, props_hash, props_iter, props_own, props_opt, props_log, props_mt, props_usage):
     for v in vars(mod).values():
         if v.__class__.__name__ == "Prop":
             PROPS[v.pid] = v
